@@ -25,8 +25,15 @@ IDS = st.one_of(
 _json_leaf = st.one_of(st.none(), st.booleans(), st.integers(-10 ** 12, 10 ** 12),
                        st.floats(allow_nan=False, allow_infinity=False, width=64),
                        st.text(alphabet=st.characters(blacklist_categories=('Cs',), max_codepoint=0x2FFF), max_size=8))
+# JSON object keys are strings; keys that LOOK like other JSON scalars must come back as the very same strings
+_json_keys = st.one_of(
+    st.text(alphabet='abcé', max_size=3),
+    st.sampled_from(['0', '1', '01', '007', '2024', '-1', '1.5', '1e3', 'true', 'false', 'null', 'None', 'NaN',
+                     'Infinity', '\u00b2', '\u0661', ' 1', '1 ', '[]', '{}', '"a"']),
+    st.integers(-100, 3000).map(str),
+    st.text(alphabet=st.characters(blacklist_categories=('Cs',), max_codepoint=0x2FFF), max_size=4))
 JSON_VALUES = st.recursive(_json_leaf, lambda ch: st.one_of(
-    st.lists(ch, max_size=3), st.dictionaries(st.text(alphabet='abcé', max_size=3), ch, max_size=3)), max_leaves=8)
+    st.lists(ch, max_size=3), st.dictionaries(_json_keys, ch, max_size=3)), max_leaves=8)
 _pickle_leaf = st.one_of(_json_leaf, st.binary(max_size=8), st.complex_numbers(allow_nan=False, allow_infinity=False))
 PICKLE_VALUES = st.recursive(_pickle_leaf, lambda ch: st.one_of(
     st.lists(ch, max_size=3), st.tuples(ch, ch), st.dictionaries(st.one_of(st.text(max_size=3), st.integers()), ch,
